@@ -2,7 +2,7 @@ SPECIFICATION Spec
 CONSTANTS
   Lens = {0, 1, 2, 3, 7, 8, 9, 15, 16, 17, 31, 32, 33, 34, 40, 47, 48, 63, 64, 65, 100}
   Offs = {0, 1, 2, 3, 4, 5, 6, 7, 8, 9}
-  LongLens = {127, 128, 129, 255, 256, 257, 258, 511, 512, 513, 1023, 1024, 1025, 4095, 4096, 4097, 65535, 65536, 65537}
+  LongLens = {127, 128, 129, 255, 256, 257, 258, 511, 512, 513, 1023, 1024, 1025, 4097}
   LongOffs = {0, 3}
   Routes = {"lit", "cat", "slice", "interp", "split", "replace", "utf8", "join"}
 INVARIANTS VerdictIsSame Emit
